@@ -136,3 +136,93 @@ def c10_dup(F, R):
                 R.ok(key, detail="no per-entry emission" if not emits else "de-duplicated")
     # other consumers of functions(): lookups by label are fine
     R.ok("sites", detail=f"{n_sites} loop(s) over Cfg::functions()")
+
+
+PUSHES = {"extend", "push", "push_back", "push_front", "append", "insert"}
+POPS = {"pop", "pop_front", "pop_back"}
+
+
+def worklists(F):
+    """worklist loops: `while let Some(X) = Q.pop*() { .. Q.push*(..) .. }` in workspace code (not tests)"""
+    out = []
+    for q, g in sorted(F.fns.items()):
+        if "hir" not in g or g.get("crate") not in (None, "riscv_analysis", "rva", "riscv_analysis_cli", "riscv_analysis_lsp"):
+            continue
+        for lp in walk(g["hir"]["value"], pats=False):
+            if lp.get("k") != "Loop" or lp.get("src") != "While":
+                continue
+            b = lp["body"]
+            iff = peel(b.get("expr") or {})
+            if iff.get("k") != "If":
+                continue
+            c = iff["cond"]
+            while c.get("k") in ("DropTemps", "Use"):
+                c = c["e"]
+            if c.get("k") != "LetExpr":
+                continue
+            init = peel(c["init"])
+            if not (init.get("k") == "MethodCall" and init["name"] in POPS):
+                continue
+            Q = ekey(init["recv"]).lstrip("&*")
+            binds = [x["name"] for x in walk(c["pat"]) if x.get("k") == "PBinding"]
+            if len(binds) != 1:
+                continue
+            body = iff["then"]
+            pushes = [m for m in walk(body, pats=False) if m.get("k") == "MethodCall" and m["name"] in PUSHES - {"insert"} and ekey(m["recv"]).lstrip("&*") == Q]
+            if not pushes:
+                continue
+            out.append({"fn": q, "Q": Q, "X": binds[0], "body": body, "pushes": pushes, "loop": lp})
+    return out
+
+
+@rule("C10", "G2.worklist-visits-once", floor=4)
+@rule("C06", "C06.w.worklist-visits-once", floor=4)
+def g2_worklist(F, R):
+    """every worklist loop processes a node at most once: the visited test sits where the node is marked (test-and-mark at pop time, or mark at push time); a search that marks at pop time but filters at push time queues a node twice when two nodes of one level share a predecessor - duplicate, hash-order dependent diagnostics - and one without any mark does not terminate on a cycle"""
+    from .p_parse import parent_map
+    for w in worklists(F):
+        X, Q, body = w["X"], w["Q"], w["body"]
+        name = short(w["fn"].split("::{closure")[0])
+        mm = re.match(r"<(.+?) as ", w["fn"])
+        owner = short(mm.group(1)) if mm else (w["fn"].split("::")[-2] if "::" in w["fn"] else "")
+        key = f"{owner}::{name}" if name in ("next", "run") else name
+        marks = [m for m in walk(body, pats=False) if m.get("k") == "MethodCall" and m["name"] == "insert" and ekey(m["recv"]).lstrip("&*") != Q
+                 and any(x.get("k") == "Path" and x.get("res") == X for a in m["args"] for x in walk(a, pats=False))]
+        if not marks:
+            # marking at push time?
+            push_marks = [m for m in walk(body, pats=False) if m.get("k") == "MethodCall" and m["name"] == "insert" and ekey(m["recv"]).lstrip("&*") != Q and "HashSet" in (m["recv"].get("ty", "") + m["recv"].get("aty", ""))]
+            if push_marks:
+                R.ok(key, detail=f"{key}: nodes are marked in `{ekey(push_marks[0]['recv'])}` when they are queued", where=loc(push_marks[0]))
+            else:
+                R.bad(key, f"{key}: the worklist `{Q}` has no visited set: a cycle in the graph is walked for ever", loc(w["loop"]))
+            continue
+        V = ekey(marks[0]["recv"]).lstrip("&*")
+        stmts = (peel(body).get("stmts") or [])
+        # position of the mark among the top-level statements
+        def top_index(node):
+            for i, st in enumerate(stmts):
+                if any(y is node for y in walk(st, pats=False)):
+                    return i
+            return len(stmts)
+        mi = top_index(marks[0])
+        tested = False
+        for st in stmts[:mi + 1]:
+            e = st.get("e") or {}
+            while e.get("k") in ("DropTemps", "Use"):
+                e = e["e"]
+            if e.get("k") != "If":
+                continue
+            cn = list(walk(e["cond"], pats=False))
+            has_contains = any(m.get("k") == "MethodCall" and m["name"] == "contains" and ekey(m["recv"]).lstrip("&*") == V and any(x.get("k") == "Path" and x.get("res") == X for a in m["args"] for x in walk(a, pats=False)) for m in cn)
+            neg_insert = any(u.get("k") == "Unary" and u["op"] == "Not" and any(m is marks[0] for m in walk(u, pats=False)) for u in cn)
+            negated = any(u.get("k") == "Unary" and u["op"] == "Not" for u in cn)
+            skips = any(y.get("k") in ("Continue",) for y in walk(e["then"], pats=False))
+            if skips and ((has_contains and not negated) or neg_insert):
+                tested = True
+        first_push = min([top_index(p) for p in w["pushes"]] or [len(stmts)])
+        if tested and mi <= first_push:
+            R.ok(key, detail=f"{key}: `if {V}.contains(&{X}) {{ continue }}` then `{V}.insert({X})` before anything is queued", where=loc(marks[0]))
+        elif not tested:
+            R.bad(key, f"{key}: `{X}` is marked in `{V}` when it is popped, but nothing tests `{V}` at that point (a filter where nodes are queued does not help: a node is queued once per already-popped successor until its own first visit): the same node is processed twice, its predecessors are queued twice, and whether that happens depends on the iteration order of a HashSet", loc(marks[0]))
+        else:
+            R.bad(key, f"{key}: successors are queued before `{X}` is marked in `{V}`", loc(marks[0]))
